@@ -396,6 +396,9 @@ def check(ctx, want="C12"):
                 raise vlib.Infra("pipeline driver timed out: " + r["crash"][-800:])
             ctx.violation("%s pipeline: the worker process died: %s" % (proto, why), dict(case, log=r["crash"][-1500:]), key=proto + ":died")
             continue
+        if r.get("blocked"):
+            ctx.violation("%s pipeline (%d workers, mirroring enabled): %s" % (proto, job["workers"], r["blocked"]), case, key=proto + ":blocked-on-mirror")
+            continue
         if r.get("problem"):
             raise vlib.Infra("pipeline scheduler: %s (%s)" % (r["problem"], case))
         # byte-for-byte: what the producer took vs the stand-alone decode of the datagram it belongs to
